@@ -148,6 +148,50 @@ func measureLatencyAfterPause(d, p time.Duration) int64 {
 	}
 }
 
+// measureLatencyRepeated: Reset(d), pause p < d, Reset(d) again with the SAME
+// duration while the first arming is still pending: the tick comes no sooner
+// than d after the second Reset.
+func measureLatencyRepeated(d, p time.Duration) int64 {
+	t := timeutil.NewTimer()
+	defer t.Stop()
+	t.Reset(d)
+	time.Sleep(p)
+	start := time.Now()
+	t.Reset(d)
+	select {
+	case <-t.C:
+		t.Read = true
+		return int64(time.Since(start))
+	case <-time.After(d + 3*time.Second):
+		return -1
+	}
+}
+
+// measureResetCall: Reset(d1), pause p < d1, Reset(d2): how long the second
+// call takes; -1 when it takes more than a second (Reset never blocks: the
+// first arming, still pending and unread, must not be waited for).
+func measureResetCall(d1, p, d2 time.Duration) int64 {
+	t := timeutil.NewTimer()
+	defer t.Stop()
+	t.Reset(d1)
+	time.Sleep(p)
+	done := make(chan int64, 1)
+	go func() {
+		start := time.Now()
+		t.Reset(d2)
+		done <- int64(time.Since(start))
+	}()
+	select {
+	case e := <-done:
+		if e > int64(time.Second) {
+			return -1
+		}
+		return e
+	case <-time.After(d1 + 2*time.Second):
+		return -1
+	}
+}
+
 var opCoq = map[string]string{"Rs": "HReset true", "Rz": "HReset true", "Rn": "HReset true", "Rl": "HReset false", "Rm": "HReset false", "W": "HWait", "T": "HTryRecv", "S": "HStop"}
 
 func main() {
@@ -302,6 +346,13 @@ func main() {
 		{12 * time.Millisecond, 6 * time.Millisecond}, {5 * time.Millisecond, 4900 * time.Microsecond}} {
 		lats = append(lats, latCase{int64(dp[0]), measureLatencyAfterPause(dp[0], dp[1])})
 	}
+	for _, dp := range [][2]time.Duration{{30 * time.Millisecond, 20 * time.Millisecond}, {12 * time.Millisecond, 8 * time.Millisecond},
+		{60 * time.Millisecond, 45 * time.Millisecond}} {
+		lats = append(lats, latCase{int64(dp[0]), measureLatencyRepeated(dp[0], dp[1])})
+	}
+	// Reset while an earlier, longer arming is pending returns at once (duration 0 asked of the CALL itself)
+	lats = append(lats, latCase{0, measureResetCall(3*time.Second, 50*time.Millisecond, 100*time.Millisecond)})
+	lats = append(lats, latCase{0, measureResetCall(3*time.Second, 5*time.Millisecond, 3*time.Second)})
 	nl := 10
 	if *tier == "thorough" {
 		nl = 200
